@@ -203,11 +203,32 @@ package l1infotreesync
 //@   ensures[a-leaf-carrying-that-global-exit-root] result1 == nil ==> result0 != nil && result0.GlobalExitRoot == ger
 //@   ensures[not-found-only-when-the-statement-found-no-row] (result1 != nil && isErr(result1, db.ErrNotFound)) == l1LookupNoRows
 //@   assert call:QueryRow arg0 == p.db
+//@ extern github.com/russross/meddler.QueryRow@l1infotreesync.(*processor).getInfoByIndexWithTx (conn, dst, query, args)
+//@   requires typeIs(dst, *L1InfoTreeLeaf) && cast(dst, *L1InfoTreeLeaf) != nil
+//@   modifies *cast(dst, *L1InfoTreeLeaf), l1LookupNoRows
+//@   ensures l1LookupNoRows == (result != nil && isErr(result, sql.ErrNoRows))
+//@   ensures result == nil ==> cast(dst, *L1InfoTreeLeaf).L1InfoTreeIndex == caller.index
 //@ func (p *processor) getInfoByIndexWithTx (p, tx, index)
 //@   props C09 C11 C12
-//@   trusted
-//@   modifies nothing
 //@   sqltext "SELECT * FROM l1info_leaf WHERE position = $1;"
+//@   modifies l1LookupNoRows
+//@   nocalls
+//@   allowcalls QueryRow
+//@   ensures[the-leaf-at-that-position] result1 == nil ==> result0 != nil && result0.L1InfoTreeIndex == index
+//@   assert call:QueryRow arg0 == tx && len(arg3) == 1 && typeIs(arg3[0], uint32) && unbox(arg3[0], uint32) == index
+// the leaf at an index, as the claim endpoint (C12), the FEP GER scan (C16) and the certificate proofs (C09) ask for it:
+// the store's connection, the index given, the row read
+//@ func (p *processor) GetInfoByIndex (p, ctx, index)
+//@   props C09 C11 C12
+//@   requires p != nil
+//@   modifies l1LookupNoRows
+//@   ensures[the-leaf-at-that-position] result1 == nil ==> result0 != nil && result0.L1InfoTreeIndex == index
+//@   assert call:getInfoByIndexWithTx arg0 == p && arg1 == p.db && arg2 == index
+//@ func (s *L1InfoTreeSync) GetInfoByIndex (s, ctx, index)
+//@   props C09 C12
+//@   requires s != nil && s.processor != nil
+//@   modifies l1LookupNoRows
+//@   ensures[the-leaf-at-that-position] (!old(s.processor.halted) && result1 == nil) ==> result0 != nil && result0.L1InfoTreeIndex == index
 //@ extern github.com/russross/meddler.QueryRow@l1infotreesync.(*processor).GetLastInfo (conn, dst, query, args)
 //@   requires typeIs(dst, *L1InfoTreeLeaf) && cast(dst, *L1InfoTreeLeaf) != nil
 //@   modifies *cast(dst, *L1InfoTreeLeaf), l1LookupNoRows
